@@ -97,7 +97,7 @@ def stepLine (d : DSt) (line : String) : DSt × String :=
     | _, _ => (d, "bad-op")
   | ["end"] =>
     let c := s.core
-    (d, s!"live={b01 c.live} cs={csName c.cs} ss={ssName c.ss} pt={b01 c.pt} settled={b01 s.settled} bad={b01 c.bad} paused={b01 c.paused.isSome} streamed={b01 c.m.streamed} ws={b01 c.websocket} adm={b01 d.adm}")
+    (d, s!"live={b01 c.live} cs={csName c.cs} ss={ssName c.ss} pt={b01 c.pt} settled={b01 s.settled} bad={b01 c.bad} paused={b01 c.paused.isSome} streamed={b01 c.m.streamed} ws={b01 c.websocket} connect={b01 c.isConnect} adm={b01 d.adm}")
   | fs =>
     match parseEv fs with
     | none => (d, "bad-op")
